@@ -1122,6 +1122,8 @@ void Preprocessor::dump(std::ostream &out) const
 std::size_t Preprocessor::calculateHash(const std::string &toolinfo) const
 {
     std::string hashData = toolinfo;
+    // the language the file is analysed as (--language / file extension)
+    hashData += static_cast<char>(mLang);
     // use all bytes of the line and column numbers (a single char wraps around at 256)
     const auto addLocation = [&hashData](const simplecpp::Location &location) {
         for (unsigned int shift = 0; shift < 32; shift += 8) {
